@@ -3,6 +3,8 @@ import Rawr.Gen
 import Rawr.Model.CountMoves
 import Rawr.Model.Search
 import Rawr.Model.UciMove
+import Rawr.Model.Fen
+import Rawr.Model.Uci
 /-! Line-protocol driver: one request per line in, one canonical line out.
 Model requests have the same names as the harness (`hx`) requests; specification (oracle) requests
 start with `s`; generator requests start with `g`. -/
@@ -136,6 +138,7 @@ def showInfo (p : Position) (i : InfoRec) : String :=
 def handleSearch (cmd : String) (p : Position) (r : List String) : String :=
   match cmd, r with
   | "eval", _ => toString (eval p)
+  | "fenout", _ => (match getFen p with | some cs => String.ofList cs | none => "PANIC")
   | "uci", r => (match parseMv r with | some (m, _) => toUci p m | none => "bad-op")
   | "qs", [a, b] =>
     (match qsearch 80 p ⟨0, 0⟩ (int! a) (int! b) 0 with
@@ -204,7 +207,38 @@ def handleGen (t : List String) : List String :=
     [showPos (rel (GenPos.startFrom (GenPos.backRank960 (nat! n)) (GenPos.backRank960 (nat! m))) (b01 frc))]
   | _ => ["bad-op"]
 
+def stripNl (s : String) : String :=
+  let cs := s.toList
+  let cs := if cs.getLast? == some '\n' then cs.dropLast else cs
+  let cs := if cs.getLast? == some '\r' then cs.dropLast else cs
+  String.ofList cs
+
+def handleFenIn (line : String) : String :=
+  let l := stripNl line
+  let ar := if l.startsWith "fenint " then Arith.trap else Arith.wrap
+  let fen := (l.toList.drop 7)
+  match setFen ar false fen with
+  | some p => showPos p
+  | none => "PANIC"
+
+/-- `script <w|t> <stopat|-> line|line|...` : the UCI transcript (lines joined by `|`). -/
+def handleScript (line : String) : String :=
+  let l := stripNl line
+  match l.splitOn " " with
+  | _ :: ar :: clk :: _ =>
+    let hdr := ("script " ++ ar ++ " " ++ clk ++ " ").length
+    let body := String.ofList (l.toList.drop hdr)
+    let lines := (body.splitOn "|").map (·.toList)
+    let clock : Nat → Bool := match clk.toNat? with | some k => fun n => n ≥ k | none => fun _ => false
+    match listen (if ar == "t" then Arith.trap else Arith.wrap) clock lines with
+    | some out => "|".intercalate out
+    | none => "PANIC"
+  | _ => "bad-op"
+
 def handle (line : String) : List String :=
+  if line.startsWith "script " then [handleScript line] else
+  if line.startsWith "feninw " || line.startsWith "fenint " || stripNl line == "feninw" || stripNl line == "fenint" then
+    [handleFenIn line] else
   let t := tok line
   match t with
   | [] => [""]
@@ -215,7 +249,7 @@ def handle (line : String) : List String :=
       match parsePos rest with
       | none => ["bad-op"]
       | some (p, r) =>
-        if ["eval", "uci", "qs", "nm", "root"].contains cmd then [handleSearch cmd p r]
+        if ["eval", "uci", "qs", "nm", "root", "fenout"].contains cmd then [handleSearch cmd p r]
         else if cmd.startsWith "s" then [handleSpec cmd p r] else [handleModel cmd p r]
 
 partial def loop (h : IO.FS.Stream) (out : IO.FS.Stream) : IO Unit := do
